@@ -16,10 +16,15 @@ package tdx
 // selects one attribute bit of equally-sized TD HOB resource descriptors, ovmf/tdx_data.go getTDHOBList), which
 // is what makes the discarded error of the second call in generateAllPossibleMRTDs unreachable; this clause is
 // an assumed (unverified) part of the contract.
+// The launch mode selects the extraction variant: early accept (DisableUnacceptedMemory) first, then the legacy
+// measure-all mode, else the default; measure-all also selects the measure-everything Measurement.
 //@ func MRTD
-//@   requires opts != nil && len(fw) < 2147483648 && len(opts.GuestRAMBanks) < 1048576
+//@   requires opts != nil
+//@   requires[C08] len(fw) < 2147483648 && len(opts.GuestRAMBanks) < 1048576
 //@   assigns nothing
 //@   modifies pbsrc, pbok
+//@   ensures[C05] err == nil ==> tdxMode == ite(opts.DisableUnacceptedMemory, 1, ite(opts.MeasureAllRegions, 2, 3))
+//@   atcall InitMemoryRegion requires[C05] p0.MeasureAllRegions == opts.MeasureAllRegions
 //@   sweep[C08]
 //@   ensures[assume] err == nil ==> val(result0) == mrtdOf(val(fw), banksOf(opts.GuestRAMBanks), opts.DisableUnacceptedMemory, opts.MeasureAllRegions)
 //@   ensures[assume] (err != nil) == mrtdFails(val(fw), banksOf(opts.GuestRAMBanks), opts.MeasureAllRegions)
@@ -110,7 +115,8 @@ package tdx
 // 4 GiB (the largest size the 32-bit data fields of the metadata can describe).
 //@ func (*Measurement).InitMemoryRegion
 //@   requires m != nil && m.digest != nil && region != nil
-//@   requires[C05] region.GPR.Start + region.GPR.Length <= 18446744073709551616
+// (validity assumption of C05, not checked by the code: a section does not wrap around the 64-bit address space)
+//@   requires[assume] region.GPR.Start + region.GPR.Length <= 18446744073709551616
 //@   requires[C08] region.GPR.Length == len(region.HostBuffer) || region.GPR.Length <= 4294967296
 //@   assigns nothing
 //@   modifies wrLen, wrLog
